@@ -207,6 +207,11 @@ func (routes RouteList) Compile(logger *zap.Logger, matchingTimeout time.Duratio
 			}
 			// end of match
 			if lastMatchedRouteIdx == len(routes)-1 {
+				// with an empty route list nothing has matched and the deadline set above is still armed
+				err = cx.Conn.SetReadDeadline(time.Time{})
+				if err != nil {
+					return err
+				}
 				// next is called because if the last handler is terminal, it's already returned
 				return next.Handle(cx)
 			}
